@@ -33,7 +33,7 @@ ASSUMPTIONS = ["commands queued during the outage may legitimately precede the r
                "(not generated)"]
 REQUIRED_OBS = ["reconnects_judged", "refresh_requests_at_open", "converged_after_change",
                 "unchanged_refresh_silent", "poll_requests_predicted_and_seen",
-                "poll_restarted_by_status", "poll_after_reconnection"]
+                "poll_restarted_by_status", "poll_after_reconnection", "flapping_reconnections"]
 BUDGET = {"quick": 100, "thorough": 1500}
 
 TAUS = [0.001, 0.5, 1.0, 2.0, 5.0, 29.0, 100.0, 299.0, 299.999, 300.0, 300.001, 301.0, 330.0,
@@ -54,7 +54,10 @@ def cases(tier, seed):
                            "seed": rnd.randrange(1 << 30),
                            # an AC in an error episode: with a text, with the empty answer,
                            # or with the error-text request never answered
-                           "err": rnd.choice([None, None, "text", "empty", "silent"])}
+                           "err": rnd.choice([None, None, "text", "empty", "silent"]),
+                           # the link flaps: the console reads the refresh requests of the
+                           # next k connections and drops each without answering
+                           "flaps": rnd.choice([0, 0, 0, 1, 2, 3])}
         for outage in OUTAGES:
             for delta in ("none", "one", "all"):
                 yield {"k": "reconnect", "gen": gen, "how": "hb", "tau": 0.0, "outage": outage,
@@ -141,6 +144,23 @@ def run_reconnect(case):
                 z.subscribe(sz)
         sa = H.Sub(log, "airtouch")
         w.at.subscribe(sa)
+        flap = {"n": case.get("flaps", 0), "seen": set(), "done": 0}
+        if flap["n"]:
+            handle0 = w.console._handle
+
+            def handle(conn, f, cmd):
+                if flap["n"] > 0 and flap.get("armed") and cmd["kind"] in (
+                        "ac_status_request", "zone_status_request"):
+                    flap["seen"].add(cmd["kind"])
+                    if len(flap["seen"]) == 2:
+                        flap["seen"].clear()
+                        flap["n"] -= 1
+                        flap["done"] += 1
+                        loop.call_soon(conn.transport.peer_eof if flap["n"] % 2 else
+                                       conn.transport.peer_reset)
+                    return None
+                return handle0(conn, f, cmd)
+            w.console._handle = handle
         if how == "hb":
             await asyncio.sleep(329.9)
         else:
@@ -156,6 +176,7 @@ def run_reconnect(case):
             net.script.append(("accept", case["outage"]))
         t_loss = loop.time()
         m_loss = log.mark()
+        flap["armed"] = True
         if how == "fin":
             c1.transport.peer_eof()
         elif how == "rst":
@@ -191,6 +212,7 @@ def run_reconnect(case):
         out["sub_calls"] = [d["name"] for _, _, k, d in log.since(out["sub_mark"])
                             if k == "SUB.call"]
         out["t_loss"] = t_loss
+        out["flaps_done"] = flap["done"]
         await w.at.shutdown()
 
     _, log, st = H.run(main)
@@ -223,6 +245,8 @@ def run_reconnect(case):
         else:
             obs["unchanged_refresh_silent"] = 1
     obs["reconnects_judged"] = 1
+    if out.get("flaps_done"):
+        obs["flapping_reconnections"] = out["flaps_done"]
     return viol, obs
 
 
